@@ -4,7 +4,7 @@
 # existing suite passes with it, the demonstration fails with it and passes without it.
 # On success stores /verif/seeded/<id>/{patch.diff,demo file,NOTES.md,meta.json}.
 set -u
-src=$1; id=$2; prop=$3
+src=$1; id=$2; prop=$3; flags=${4:-}
 export GOFLAGS=-mod=mod GOPROXY=off GOSUMDB=off GOTOOLCHAIN=local
 W=/tmp/vs-$$
 git -C /repo worktree add --detach $W HEAD -q || exit 2
@@ -20,21 +20,21 @@ go build -tags verif ./... || { echo "FAIL: build with hooks"; exit 1; }
 suite=$(go test -vet=off -count=1 ./... 2>&1)
 if echo "$suite" | grep -q "^FAIL\|^---"; then echo "FAIL: existing suite fails with the change"; echo "$suite" | grep -v "no test files" | head -20; exit 1; fi
 echo "suite with change: pass"
-cp $src/$demo_rel $W/$demo_rel
-with=$(go test -vet=off -count=1 -run 'Seeded' $pkg 2>&1); rc_with=$?
+for f in $(cd $src && git status --porcelain | grep '_test.go$' | awk '{print $2}'); do cp $src/$f $W/$f; done
+with=$(go test $flags -vet=off -count=1 -run 'Seeded' $pkg 2>&1); rc_with=$?
 echo "demo with change: rc=$rc_with"
 git apply -R $src/SEEDED/patch.diff
-without=$(go test -vet=off -count=1 -run 'Seeded' $pkg 2>&1); rc_without=$?
+without=$(go test $flags -vet=off -count=1 -run 'Seeded' $pkg 2>&1); rc_without=$?
 echo "demo without change: rc=$rc_without"
 if [ $rc_with -eq 0 ] || [ $rc_without -ne 0 ]; then echo "FAIL: demo does not discriminate"; echo "$with" | tail -5; echo "$without" | tail -5; exit 1; fi
 D=/verif/seeded/$id
 mkdir -p $D
 cp $src/SEEDED/patch.diff $D/patch.diff
-cp $src/$demo_rel $D/$(basename $demo_rel).txt
+for f in $(cd $src && git status --porcelain | grep '_test.go$' | awk '{print $2}'); do cp $src/$f $D/$(basename $f).txt; done
 cp $src/SEEDED/NOTES.md $D/NOTES.md
-python3 - "$D" "$id" "$prop" "$demo_rel" "$pkg" <<'PY'
+python3 - "$D" "$id" "$prop" "$demo_rel" "$pkg" "$flags" <<'PY'
 import json, sys, subprocess
-D, id_, prop, demo_rel, pkg = sys.argv[1:]
+D, id_, prop, demo_rel, pkg, flags = sys.argv[1:]
 head = subprocess.run(["git","-C","/repo","rev-parse","--short","HEAD"],capture_output=True,text=True).stdout.strip()
 meta = {"id": id_, "breaks_property": prop, "base_commit": head,
         "demo": {"file": demo_rel.split("/")[-1] + ".txt", "place_at": demo_rel,
